@@ -59,7 +59,7 @@ def tiers(quick, thorough_extra):
 PROPS = {
     # drop: fields of the trace lines this property does NOT compare ('t' = comparison counts, 'hq' = raw tables)
     "C01": dict(
-        theorems=None, drop=["t"],
+        theorems=None, impl_search=pqv_bign.huge("pq", "order,extreme,ops,bulk,inplace"), drop=["t"],
         gens=tiers(
             [bfs("pq", 3, 3), builds("pq", 5), rnd("pq", "core", 2000, 60), rnd("pq", "bulk", 1000, 60, exclude="serde,deser,eq"),
              rnd("pq", "iter", 800, 50, exclude=NOT_ITERMUT), rnd("pq", "core", 500, 40, prios="extreme"),
@@ -67,7 +67,7 @@ PROPS = {
             [bfs("pq", 4, 2), builds("pq", 7), rnd("pq", "all", 20000, 80), rnd("pq", "core", 2000, 600, keys=300, prios="wide")]),
     ),
     "C02": dict(
-        theorems=None, drop=["t"],
+        theorems=None, impl_search=pqv_bign.huge("dpq", "order,extreme,ops,bulk,inplace"), drop=["t"],
         gens=tiers(
             [bfs("dpq", 3, 3), builds("dpq", 5), rnd("dpq", "core", 2000, 60), rnd("dpq", "bulk", 1000, 60, exclude="serde,deser,eq"),
              rnd("dpq", "iter", 800, 50, exclude=NOT_ITERMUT), rnd("dpq", "core", 500, 40, prios="extreme"),
@@ -75,11 +75,11 @@ PROPS = {
             [bfs("dpq", 4, 2), builds("dpq", 7), rnd("dpq", "all", 20000, 80), rnd("dpq", "core", 2000, 600, keys=300, prios="wide")]),
     ),
     "C03": dict(
-        theorems=None, drop=["t", "hq"],
+        theorems=None, impl_search=pqv_bign.huge("both", "content,ops,bulk,inplace"), drop=["t", "hq"],
         gens=tiers(
             [rnd("both", "core", 3000, 60), rnd("both", "core", 1000, 60, prios="wide", keys=30),
              rnd("both", "bulk", 1000, 50, exclude="serde,deser,eq,convert"), builds("pq", 4), builds("dpq", 4),
-             rnd("both", "iter", 500, 40, exclude="itermut,drain,sortediter")],
+             rnd("both", "iter", 1500, 40, exclude="sortediter")],
             [rnd("both", "all", 20000, 80), builds("pq", 6), builds("dpq", 6)]),
     ),
     "C04": dict(
@@ -98,7 +98,7 @@ PROPS = {
             [rnd("both", "core", 400, 6000, keys=4000, prios="wide"), rnd("both", "all", 10000, 80)]),
     ),
     "C06": dict(
-        theorems=None, drop=["t", "hq"],
+        theorems=None, impl_search=pqv_bign.huge("both", "sorted"), drop=["t", "hq"],
         gens=tiers(
             [rnd("both", "iter", 2500, 50, exclude="itermut,iter,intoiter,drain", boost="sortediter:3"),
              rnd("both", "bulk", 1000, 50, exclude="serde,deser,eq,retain,retainmut,intovec", boost="sortedvec:6"),
@@ -106,7 +106,7 @@ PROPS = {
             [rnd("both", "iter", 20000, 80, exclude="itermut,iter,intoiter,drain", boost="sortediter:3"), builds("dpq", 7), pygen("big_sorted", 4)]),
     ),
     "C07": dict(
-        theorems=None, drop=["t"],
+        theorems=None, impl_search=pqv_bign.huge("both", "content,order,extreme,bulk"), drop=["t"],
         gens=tiers(
             [rnd("both", "bulk", 4000, 50, exclude="serde,deser,eq,retain,retainmut,sortedvec,intovec,clone"),
              rnd("both", "bulk", 800, 120, keys=60, prios="wide", exclude="serde,deser,eq,retain,retainmut,sortedvec,intovec,clone"),
@@ -114,7 +114,7 @@ PROPS = {
             [rnd("both", "bulk", 30000, 80, exclude="serde,deser,eq,retain,retainmut")]),
     ),
     "C08": dict(
-        theorems=None, drop=["t"],
+        theorems=None, impl_search=pqv_bign.huge("both", "content,order,extreme,inplace"), drop=["t"],
         gens=tiers(
             [rnd("both", "iter", 2500, 50, exclude=NOT_ITERMUT, boost="popif:4"),
              rnd("both", "bulk", 1500, 50, exclude="serde,deser,eq,fromvec,fromiter,extend,append,convert,clone,sortedvec,intovec", boost="retain:4,retainmut:4,popif:3"),
@@ -134,7 +134,7 @@ PROPS = {
             [rnd("both", "fuse", 30000, 60)]),
     ),
     "C11": dict(
-        theorems=None, drop=["t"],
+        theorems=None, impl_search=pqv_bign.huge("both", "incdec,ops,order,extreme,content"), drop=["t"],
         gens=tiers(
             [rnd("both", "core", 4000, 60, boost="pushinc:5,pushdec:5"), builds("pq", 5), builds("dpq", 5),
              # deep heaps: the direction-limited pushes at every level of 16..200-element queues
@@ -164,14 +164,14 @@ PROPS = {
             [rnd("both", "bulk", 30000, 80, exclude="serde,deser", boost="eq:6,clone:4"), pygen("eq_twins", 60000)]),
     ),
     "C15": dict(
-        theorems=None, impl_search=pqv_bign.zst_search, drop=["t"],
+        theorems=None, impl_search=pqv_bign.chain(pqv_bign.zst_search, pqv_bign.huge("both", "serde")), drop=["t"],
         gens=tiers(
             [rnd("both", "bulk", 4000, 50, exclude="retain,retainmut,sortedvec,intovec,append,extend,fromiter,fromvec", boost="serde:6,deser:6"),
              pygen("big_serde", 2)],
             [rnd("both", "bulk", 30000, 80, boost="serde:6,deser:6"), pygen("big_serde", 4)]),
     ),
     "C16": dict(
-        theorems=None, drop=["t"],
+        theorems=None, impl_search=pqv_bign.huge("both", "reuse"), drop=["t"],
         gens=tiers(
             [rnd("both", "iter", 4000, 50, exclude="itermut,iter,intoiter,sortediter", boost="drain:6,clear:20"),
              # large capacities / large queues: clear and drain must not depend on them
